@@ -113,6 +113,17 @@ type TwoOfAKind struct {
 	Q Simple
 }
 
+// Swapped / Chain rename fields to names that other fields of the same struct carry.
+type Swapped struct {
+	Src string
+	Dst string
+}
+type Chain struct {
+	A string
+	B string
+	C string
+}
+
 // ManyOpt has five optional fields; its values cover all 32 presence patterns
 // (absent fields in front of, between and behind present ones).
 type ManyOpt struct {
@@ -145,6 +156,8 @@ type InferB struct { Other String  Vals [Int] }
 type TwoOfAKind struct { P Simple  Q Simple }
 type ManyOpt struct { A optional Int  B optional Int  C optional Int  D optional Int  E optional Int }
 type ManyOptPairs struct { A optional Int  B optional Int  C optional Int  D optional Int  E optional Int } representation listpairs
+type Swapped struct { Src String (rename "Dst")  Dst String (rename "Src") }
+type Chain struct { A String (rename "B")  B String (rename "C")  C String (rename "A") }
 type Foo1 struct { A String  N Int }
 type Foo2 struct { X Bool  L [Int] }
 `
@@ -244,6 +257,10 @@ var vocab = []vtype{
 		}}},
 	{name: "ManyOpt", schema: "ManyOpt", ptr: func() interface{} { return (*ManyOpt)(nil) }, vals: manyOptVals(false)},
 	{name: "ManyOptPairs", schema: "ManyOptPairs", ptr: func() interface{} { return (*ManyOptPairs)(nil) }, vals: manyOptVals(true)},
+	{name: "Swapped", schema: "Swapped", ptr: func() interface{} { return (*Swapped)(nil) },
+		vals: []func() interface{}{func() interface{} { return &Swapped{Src: "from", Dst: "to"} }}},
+	{name: "Chain", schema: "Chain", ptr: func() interface{} { return (*Chain)(nil) },
+		vals: []func() interface{}{func() interface{} { return &Chain{A: "1", B: "2", C: "3"} }}},
 	{name: "pk1.Foo", schema: "Foo1", inferable: true, ptr: func() interface{} { return (*pk1.Foo)(nil) },
 		vals: []func() interface{}{func() interface{} { return &pk1.Foo{A: "a", N: 1} }}},
 	{name: "pk2.Foo", schema: "Foo2", inferable: true, ptr: func() interface{} { return (*pk2.Foo)(nil) },
@@ -413,6 +430,23 @@ func semEq(a, b reflect.Value) bool {
 	return a.Interface() == b.Interface()
 }
 
+// retained holds the byte slices earlier Marshal calls of this process returned,
+// with their hash at the time: a caller owns what Marshal hands it, so a later
+// binding operation must not change them.
+var retained []struct {
+	b []byte
+	h uint64
+}
+
+func retainedIntact() bool {
+	for _, r := range retained {
+		if sim.HashString(string(r.b)) != r.h {
+			return false
+		}
+	}
+	return true
+}
+
 // Exec performs one operation and returns its observable outcome as a string.
 // Fidelity observations are embedded as " FID:<what>=false" markers.
 func Exec(o Op) (out string) {
@@ -435,6 +469,12 @@ func Exec(o Op) (out string) {
 	if o.Json {
 		enc, dec = dagjson.Encode, dagjson.Decode
 	}
+	defer func() {
+		if !retainedIntact() {
+			out += " HIST:bytes-returned-by-an-earlier-Marshal-changed"
+			retained = nil
+		}
+	}()
 	switch o.Kind {
 	case 0:
 		proto := bindnode.Prototype(vt.ptr(), st)
@@ -480,6 +520,12 @@ func Exec(o Op) (out string) {
 			return fmt.Sprintf("bytes=%x ERR:unmarshal: %s", sim.HashString(string(b)), err.Error())
 		}
 		out = fmt.Sprintf("bytes=%x", sim.HashString(string(b)))
+		if len(retained) < 64 {
+			retained = append(retained, struct {
+				b []byte
+				h uint64
+			}{b, sim.HashString(string(b))})
+		}
 		if !deepEq(fresh, vt.vals[o.Val%len(vt.vals)]()) {
 			out += " FID:marshal-unmarshal-roundtrip=false"
 		}
